@@ -49,3 +49,27 @@ def pair_status(frame, fm, info, cols, fit):
                     st = "other"
             out[(j, ii)] = {"pair": pair, "exp": exp, "status": st}
     return out
+
+
+def circle_through(a, b, c):
+    """centre of the circle through three complex points (None if collinear)"""
+    with np.errstate(all="ignore"):
+        w = (c - a) / (b - a)
+        if abs(w.imag) < 1e-300:
+            return None
+        return (b - a) * (w - abs(w) ** 2) / (2j * w.imag) + a
+
+
+def dlite_underconverged(pts, centre):
+    """F22 mechanism: True if the least-squares cost (spread of the distances to the centre) at the library's centre is
+    clearly above the cost at the circle through the first, middle and last point, i.e. leastsq stopped before the optimum"""
+    with np.errstate(all="ignore"):
+        ref = circle_through(pts[0], pts[len(pts) // 2], pts[-1])
+        if ref is None:
+            return False
+
+        def cost(c):
+            d = np.array([abs(p - c) for p in pts])
+            return float(((d - d.mean()) ** 2).sum())
+        scale = abs(pts[-1] - pts[0]) ** 2
+        return cost(centre) > 10 * cost(ref) + 1e-16 * scale
